@@ -196,14 +196,81 @@ pub fn harvest(repo: &Path) -> Corpus {
         seen.entry(r.text.clone()).or_insert(r);
     }
     let inputs: Vec<Input> = seen.into_values().collect();
+    // every identifier the repository's own examples write inside `#[educe(..)]`
+    let mut tested: std::collections::BTreeSet<String> = std::collections::BTreeSet::new();
+    fn idents_in_educe(ts: TokenStream, inside: bool, out: &mut std::collections::BTreeSet<String>) {
+        let toks: Vec<TokenTree> = ts.into_iter().collect();
+        for i in 0..toks.len() {
+            match &toks[i] {
+                TokenTree::Ident(id) if inside => {
+                    out.insert(id.to_string());
+                },
+                TokenTree::Group(g) => {
+                    let educe_attr = i >= 1 && matches!(&toks[i - 1], TokenTree::Ident(id) if id == "educe");
+                    idents_in_educe(g.stream(), inside || educe_attr, out);
+                },
+                _ => {},
+            }
+        }
+    }
+    for i in &inputs {
+        if let Ok(ts) = i.text.parse::<TokenStream>() {
+            idents_in_educe(ts, false, &mut tested);
+        }
+    }
+    crate::gen::set_tested_words(&tested.into_iter().collect::<Vec<_>>());
     let template_idents = template_idents(repo);
     crate::gen::set_template_vocab(&template_idents.0, &template_idents.1);
+    crate::gen::set_param_words(&param_words(repo));
     Corpus { template_idents, inputs, sites, by_origin }
 }
 
 /// Identifiers the crate's own `quote!` templates spell out (generic parameter names such as `H`,
 /// helper type names, local bindings such as `f`, `state`, `other`): harvested at check time so
 /// that the generator can give *user* items the very names the generated code uses internally.
+/// String literals the macro compares identifiers against (`ident == "rank"`, `"name" | "rename" =>`,
+/// `path.is_ident("bound")`): very likely names of attribute parameters and traits.
+pub fn param_words(repo: &Path) -> Vec<String> {
+    fn walk(ts: TokenStream, in_is_ident: bool, out: &mut std::collections::BTreeSet<String>) {
+        let toks: Vec<TokenTree> = ts.into_iter().collect();
+        for i in 0..toks.len() {
+            match &toks[i] {
+                TokenTree::Literal(l) => {
+                    let t = l.to_string();
+                    if t.len() >= 3 && t.len() <= 26 && t.starts_with('"') && t.ends_with('"') {
+                        let name = &t[1..t.len() - 1];
+                        if syn::parse_str::<syn::Ident>(name).is_err() {
+                            continue;
+                        }
+                        let prev_eq = i >= 2 && is_punct(&toks[i - 1], '=') && is_punct(&toks[i - 2], '=');
+                        let next_arrow = i + 2 < toks.len() && is_punct(&toks[i + 1], '=') && is_punct(&toks[i + 2], '>');
+                        let bar = (i + 1 < toks.len() && is_punct(&toks[i + 1], '|')) || (i >= 1 && is_punct(&toks[i - 1], '|'));
+                        if prev_eq || next_arrow || bar || in_is_ident {
+                            out.insert(name.to_string());
+                        }
+                    }
+                },
+                TokenTree::Group(g) => {
+                    let is_ident_call = i >= 1 && matches!(&toks[i - 1], TokenTree::Ident(id) if id == "is_ident");
+                    walk(g.stream(), is_ident_call, out);
+                },
+                _ => {},
+            }
+        }
+    }
+    let mut files = Vec::new();
+    rs_files(&repo.join("src"), &mut files);
+    let mut out = std::collections::BTreeSet::new();
+    for f in files {
+        if let Ok(src) = std::fs::read_to_string(&f) {
+            if let Ok(ts) = src.parse::<TokenStream>() {
+                walk(ts, false, &mut out);
+            }
+        }
+    }
+    out.into_iter().collect()
+}
+
 pub fn template_idents(repo: &Path) -> (Vec<String>, Vec<String>) {
     fn walk(ts: TokenStream, inside: bool, upper: &mut std::collections::BTreeSet<String>, lower: &mut std::collections::BTreeSet<String>) {
         let toks: Vec<TokenTree> = ts.into_iter().collect();
